@@ -259,6 +259,9 @@ func getLSAsv2(num uint32, data []byte) ([]LSA, error) {
 	var i uint32 = 0
 	var offset uint32 = 0
 	for ; i < num; i++ {
+		if uint64(offset)+20 > uint64(len(data)) {
+			return nil, fmt.Errorf("Link State header %d of %d lies beyond the packet", i, num)
+		}
 		lstype := uint16(data[offset+3])
 		lsalength := binary.BigEndian.Uint16(data[offset+18 : offset+20])
 		content, err := extractLSAInformation(lstype, lsalength, data[offset:])
@@ -292,6 +295,10 @@ func extractLSAInformation(lstype, lsalength uint16, data []byte) (interface{}, 
 	if len(data) < int(lsalength) {
 		return nil, fmt.Errorf("Link State header length %v too short, %v required", len(data), lsalength)
 	}
+	// the LSA is the first lsalength octets; short reports whether it has fewer than n
+	data = data[:lsalength]
+	short := func(n uint32) bool { return uint32(len(data)) < n }
+	errShort := errors.New("Link State Advertisement too small for its type")
 	var content interface{}
 	switch lstype {
 	case RouterLSAtypeV2:
@@ -321,6 +328,9 @@ func extractLSAInformation(lstype, lsalength uint16, data []byte) (interface{}, 
 	case NSSALSAtypeV2:
 		fallthrough
 	case ASExternalLSAtypeV2:
+		if short(36) {
+			return nil, errShort
+		}
 		content = ASExternalLSAV2{
 			NetworkMask:       binary.BigEndian.Uint32(data[20:24]),
 			ExternalBit:       data[24] & 0x80,
@@ -332,7 +342,13 @@ func extractLSAInformation(lstype, lsalength uint16, data []byte) (interface{}, 
 		var routers []uint32
 		var j uint32
 		for j = 24; j < uint32(lsalength); j += 4 {
+			if short(j + 4) {
+				return nil, errShort
+			}
 			routers = append(routers, binary.BigEndian.Uint32(data[j:j+4]))
+		}
+		if short(24) {
+			return nil, errShort
 		}
 		content = NetworkLSAV2{
 			NetworkMask:    binary.BigEndian.Uint32(data[20:24]),
@@ -342,6 +358,9 @@ func extractLSAInformation(lstype, lsalength uint16, data []byte) (interface{}, 
 		var routers []Router
 		var j uint32
 		for j = 24; j < uint32(lsalength); j += 16 {
+			if short(j + 16) {
+				return nil, errShort
+			}
 			router := Router{
 				Type:                uint8(data[j]),
 				Metric:              binary.BigEndian.Uint16(data[j+2 : j+4]),
@@ -350,6 +369,9 @@ func extractLSAInformation(lstype, lsalength uint16, data []byte) (interface{}, 
 				NeighborRouterID:    binary.BigEndian.Uint32(data[j+12 : j+16]),
 			}
 			routers = append(routers, router)
+		}
+		if short(24) {
+			return nil, errShort
 		}
 		content = RouterLSA{
 			Flags:   uint8(data[20]),
@@ -360,13 +382,22 @@ func extractLSAInformation(lstype, lsalength uint16, data []byte) (interface{}, 
 		var routers []uint32
 		var j uint32
 		for j = 24; j < uint32(lsalength); j += 4 {
+			if short(j + 4) {
+				return nil, errShort
+			}
 			routers = append(routers, binary.BigEndian.Uint32(data[j:j+4]))
+		}
+		if short(24) {
+			return nil, errShort
 		}
 		content = NetworkLSA{
 			Options:        binary.BigEndian.Uint32(data[20:24]) & 0x00FFFFFF,
 			AttachedRouter: routers,
 		}
 	case InterAreaPrefixLSAtype:
+		if short(28) {
+			return nil, errShort
+		}
 		content = InterAreaPrefixLSA{
 			Metric:        binary.BigEndian.Uint32(data[20:24]) & 0x00FFFFFF,
 			PrefixLength:  uint8(data[24]),
@@ -374,6 +405,9 @@ func extractLSAInformation(lstype, lsalength uint16, data []byte) (interface{}, 
 			AddressPrefix: data[28:uint32(lsalength)],
 		}
 	case InterAreaRouterLSAtype:
+		if short(32) {
+			return nil, errShort
+		}
 		content = InterAreaRouterLSA{
 			Options:             binary.BigEndian.Uint32(data[20:24]) & 0x00FFFFFF,
 			Metric:              binary.BigEndian.Uint32(data[24:28]) & 0x00FFFFFF,
@@ -382,10 +416,19 @@ func extractLSAInformation(lstype, lsalength uint16, data []byte) (interface{}, 
 	case ASExternalLSAtype:
 		fallthrough
 	case NSSALSAtype:
+		if short(28) {
+			return nil, errShort
+		}
 		flags := uint8(data[20])
 		prefixLen := uint8(data[24]) / 8
+		if short(28 + uint32(prefixLen)) {
+			return nil, errShort
+		}
 		var forwardingAddress []byte
 		if (flags & 0x02) == 0x02 {
+			if short(28 + uint32(prefixLen) + 16) {
+				return nil, errShort
+			}
 			forwardingAddress = data[28+uint32(prefixLen) : 28+uint32(prefixLen)+16]
 		}
 		content = ASExternalLSA{
@@ -401,8 +444,14 @@ func extractLSAInformation(lstype, lsalength uint16, data []byte) (interface{}, 
 		var prefixes []Prefix
 		var prefixOffset uint32 = 44
 		var j uint32
+		if short(44) {
+			return nil, errShort
+		}
 		numOfPrefixes := binary.BigEndian.Uint32(data[40:44])
 		for j = 0; j < numOfPrefixes; j++ {
+			if short(prefixOffset+4) || short(prefixOffset+4+uint32(data[prefixOffset])/8) {
+				return nil, errShort
+			}
 			prefixLen := uint8(data[prefixOffset])
 			prefix := Prefix{
 				PrefixLength:  prefixLen,
@@ -423,8 +472,14 @@ func extractLSAInformation(lstype, lsalength uint16, data []byte) (interface{}, 
 		var prefixes []Prefix
 		var prefixOffset uint32 = 32
 		var j uint16
+		if short(32) {
+			return nil, errShort
+		}
 		numOfPrefixes := binary.BigEndian.Uint16(data[20:22])
 		for j = 0; j < numOfPrefixes; j++ {
+			if short(prefixOffset+4) || short(prefixOffset+4+uint32(data[prefixOffset])/8) {
+				return nil, errShort
+			}
 			prefixLen := uint8(data[prefixOffset])
 			prefix := Prefix{
 				PrefixLength:  prefixLen,
@@ -455,6 +510,9 @@ func getLSAs(num uint32, data []byte) ([]LSA, error) {
 	var offset uint32 = 0
 	for ; i < num; i++ {
 		var content interface{}
+		if uint64(offset)+20 > uint64(len(data)) {
+			return nil, fmt.Errorf("Link State header %d of %d lies beyond the packet", i, num)
+		}
 		lstype := binary.BigEndian.Uint16(data[offset+2 : offset+4])
 		lsalength := binary.BigEndian.Uint16(data[offset+18 : offset+20])
 
@@ -494,11 +552,33 @@ func (ospf *OSPFv2) DecodeFromBytes(data []byte, df gopacket.DecodeFeedback) err
 	ospf.Checksum = binary.BigEndian.Uint16(data[12:14])
 	ospf.AuType = binary.BigEndian.Uint16(data[14:16])
 	ospf.Authentication = binary.BigEndian.Uint64(data[16:24])
+	if int(ospf.PacketLength) > len(data) {
+		df.SetTruncated()
+		return fmt.Errorf("OSPF Version 2 packet length %d exceeds the %d bytes of data", ospf.PacketLength, len(data))
+	}
+	// length of the fixed part of the packet types decoded below, header included
+	switch ospf.Type {
+	case OSPFHello:
+		if len(data) < 44 {
+			df.SetTruncated()
+			return fmt.Errorf("Packet too small for OSPF Version 2 Hello")
+		}
+	case OSPFDatabaseDescription:
+		if len(data) < 32 {
+			df.SetTruncated()
+			return fmt.Errorf("Packet too small for OSPF Version 2 Database Description")
+		}
+	case OSPFLinkStateUpdate:
+		if len(data) < 28 {
+			df.SetTruncated()
+			return fmt.Errorf("Packet too small for OSPF Version 2 Link State Update")
+		}
+	}
 
 	switch ospf.Type {
 	case OSPFHello:
 		var neighbors []uint32
-		for i := 44; uint16(i+4) <= ospf.PacketLength; i += 4 {
+		for i := 44; i+4 <= int(ospf.PacketLength); i += 4 {
 			neighbors = append(neighbors, binary.BigEndian.Uint32(data[i:i+4]))
 		}
 		ospf.Content = HelloPkgV2{
@@ -515,7 +595,7 @@ func (ospf *OSPFv2) DecodeFromBytes(data []byte, df gopacket.DecodeFeedback) err
 		}
 	case OSPFDatabaseDescription:
 		var lsas []LSAheader
-		for i := 32; uint16(i+20) <= ospf.PacketLength; i += 20 {
+		for i := 32; i+20 <= int(ospf.PacketLength); i += 20 {
 			lsa := LSAheader{
 				LSAge:       binary.BigEndian.Uint16(data[i : i+2]),
 				LSOptions:   data[i+2],
@@ -537,7 +617,7 @@ func (ospf *OSPFv2) DecodeFromBytes(data []byte, df gopacket.DecodeFeedback) err
 		}
 	case OSPFLinkStateRequest:
 		var lsrs []LSReq
-		for i := 24; uint16(i+12) <= ospf.PacketLength; i += 12 {
+		for i := 24; i+12 <= int(ospf.PacketLength); i += 12 {
 			lsr := LSReq{
 				LSType:    binary.BigEndian.Uint16(data[i+2 : i+4]),
 				LSID:      binary.BigEndian.Uint32(data[i+4 : i+8]),
@@ -559,7 +639,7 @@ func (ospf *OSPFv2) DecodeFromBytes(data []byte, df gopacket.DecodeFeedback) err
 		}
 	case OSPFLinkStateAcknowledgment:
 		var lsas []LSAheader
-		for i := 24; uint16(i+20) <= ospf.PacketLength; i += 20 {
+		for i := 24; i+20 <= int(ospf.PacketLength); i += 20 {
 			lsa := LSAheader{
 				LSAge:       binary.BigEndian.Uint16(data[i : i+2]),
 				LSOptions:   data[i+2],
@@ -592,11 +672,33 @@ func (ospf *OSPFv3) DecodeFromBytes(data []byte, df gopacket.DecodeFeedback) err
 	ospf.Checksum = binary.BigEndian.Uint16(data[12:14])
 	ospf.Instance = uint8(data[14])
 	ospf.Reserved = uint8(data[15])
+	if int(ospf.PacketLength) > len(data) {
+		df.SetTruncated()
+		return fmt.Errorf("OSPF Version 3 packet length %d exceeds the %d bytes of data", ospf.PacketLength, len(data))
+	}
+	// length of the fixed part of the packet types decoded below, header included
+	switch ospf.Type {
+	case OSPFHello:
+		if len(data) < 36 {
+			df.SetTruncated()
+			return fmt.Errorf("Packet too small for OSPF Version 3 Hello")
+		}
+	case OSPFDatabaseDescription:
+		if len(data) < 28 {
+			df.SetTruncated()
+			return fmt.Errorf("Packet too small for OSPF Version 3 Database Description")
+		}
+	case OSPFLinkStateUpdate:
+		if len(data) < 20 {
+			df.SetTruncated()
+			return fmt.Errorf("Packet too small for OSPF Version 3 Link State Update")
+		}
+	}
 
 	switch ospf.Type {
 	case OSPFHello:
 		var neighbors []uint32
-		for i := 36; uint16(i+4) <= ospf.PacketLength; i += 4 {
+		for i := 36; i+4 <= int(ospf.PacketLength); i += 4 {
 			neighbors = append(neighbors, binary.BigEndian.Uint32(data[i:i+4]))
 		}
 		ospf.Content = HelloPkg{
@@ -611,7 +713,7 @@ func (ospf *OSPFv3) DecodeFromBytes(data []byte, df gopacket.DecodeFeedback) err
 		}
 	case OSPFDatabaseDescription:
 		var lsas []LSAheader
-		for i := 28; uint16(i+20) <= ospf.PacketLength; i += 20 {
+		for i := 28; i+20 <= int(ospf.PacketLength); i += 20 {
 			lsa := LSAheader{
 				LSAge:       binary.BigEndian.Uint16(data[i : i+2]),
 				LSType:      binary.BigEndian.Uint16(data[i+2 : i+4]),
@@ -632,7 +734,7 @@ func (ospf *OSPFv3) DecodeFromBytes(data []byte, df gopacket.DecodeFeedback) err
 		}
 	case OSPFLinkStateRequest:
 		var lsrs []LSReq
-		for i := 16; uint16(i+12) <= ospf.PacketLength; i += 12 {
+		for i := 16; i+12 <= int(ospf.PacketLength); i += 12 {
 			lsr := LSReq{
 				LSType:    binary.BigEndian.Uint16(data[i+2 : i+4]),
 				LSID:      binary.BigEndian.Uint32(data[i+4 : i+8]),
@@ -654,7 +756,7 @@ func (ospf *OSPFv3) DecodeFromBytes(data []byte, df gopacket.DecodeFeedback) err
 
 	case OSPFLinkStateAcknowledgment:
 		var lsas []LSAheader
-		for i := 16; uint16(i+20) <= ospf.PacketLength; i += 20 {
+		for i := 16; i+20 <= int(ospf.PacketLength); i += 20 {
 			lsa := LSAheader{
 				LSAge:       binary.BigEndian.Uint16(data[i : i+2]),
 				LSType:      binary.BigEndian.Uint16(data[i+2 : i+4]),
